@@ -31,6 +31,13 @@ def make_plane(kind, w, h, depth, seed):
         p = [[0] * w for _ in range(h)]
         p[rnd.randrange(h)][rnd.randrange(w)] = mx
         return p
+    if isinstance(kind, str) and kind.startswith("ones:"):
+        # first n samples (raster order) one above mid-grey, the rest mid-grey: with no transform each of them
+        # costs exactly 4 bits, so coded slice lengths can be placed exactly on a boundary
+        n = int(kind.split(":")[1])
+        mid = 1 << (depth - 1)
+        flat = [mid + 1 if i < n else mid for i in range(w * h)]
+        return [flat[y * w:(y + 1) * w] for y in range(h)]
     if kind == "edges":
         # extremes in random blocks
         return [[mx if rnd.random() < 0.5 else 0 for x in range(w)] for y in range(h)]
